@@ -166,4 +166,4 @@ var rollbackProp = pbt.Prop[Plan]{ID: "C02", Name: "rollback", Gen: genPlan, Run
 
 func TestProp_rollback(t *testing.T) { rollbackProp.Check(t) }
 
-func TestReplay(t *testing.T) { pbt.Replay(t, rollbackProp) }
+func TestReplay(t *testing.T) { pbt.Replay(t, rollbackProp, sqliteProp) }
